@@ -7,6 +7,7 @@ only source of entropy, logging never draws from it and never reads a clock.
 from __future__ import annotations
 
 import faulthandler
+import importlib
 import fnmatch
 import hashlib
 import json
@@ -144,6 +145,10 @@ class Result:
 def _worker_loop(func, task_q, res_q, wid):
     # each worker is a forked copy of the parent with black_it not yet exercised
     signal.signal(signal.SIGINT, signal.SIG_IGN)
+    try:
+        os.setsid()          # own process group: a deadline kill takes the forked run (and its subprocesses) with it
+    except OSError:
+        pass
     while True:
         item = task_q.get()
         if item is None:
@@ -227,9 +232,12 @@ class Pool:
                 if now - st > self.item_timeout or not p.is_alive():
                     why = "timeout" if p.is_alive() else "worker-died"
                     try:
-                        p.kill()
+                        os.killpg(p.pid, signal.SIGKILL)
                     except Exception:  # noqa: BLE001
-                        pass
+                        try:
+                            p.kill()
+                        except Exception:  # noqa: BLE001
+                            pass
                     p.join(1)
                     self.running.pop(wid, None)
                     self.workers.pop(wid, None)
@@ -268,6 +276,19 @@ def match_known(known: list[dict], pid: str, signature: str):
 
 # --------------------------------------------------------------------------------------------
 # The check protocol
+
+def preload():
+    """Import everything a run may need *before* the pool is forked: workers and the per-run children then share the
+    loaded modules copy-on-write (imports only - no black-it object is created in the parent)."""
+    from sim.seams import import_all_black_it
+    import_all_black_it()
+    for m in ("black_it.plot.plot_results", "sklearn.ensemble", "sklearn.gaussian_process", "xgboost", "pandas", "h5py", "scipy.optimize",
+              "scipy.stats", "cloudpickle", "joblib", "sim.calsim", "sim.rlsim", "sim.compsim", "sim.diskcrash", "sim.deep", "sim.peers"):
+        try:
+            importlib.import_module(m)
+        except Exception:  # noqa: BLE001
+            pass
+
 
 _SUBPROC_OK = None
 
@@ -330,7 +351,51 @@ def _exec_one(check: Check, scn: dict) -> dict:
 _CHECK: Check | None = None
 
 
+def _isolated(func, arg):
+    """Run func(arg) in a forked child of this (pristine) worker, so that no process-level state of the code under test
+    (class-level caches, module globals, registered adapters) can leak from one simulated run into the next: every run
+    starts from the same process image, which is what makes a run a function of its scenario alone."""
+    import pickle
+    if os.environ.get("VERIF_NO_FORK") == "1":
+        return func(arg)
+    r, w = os.pipe()
+    pid = os.fork()
+    if pid == 0:
+        code = 0
+        try:
+            os.close(r)
+            try:
+                data = pickle.dumps(("ok", func(arg)))
+            except BaseException as e:  # noqa: BLE001
+                data = pickle.dumps(("err", "".join(traceback.format_exception(e))[-4000:]))
+            with os.fdopen(w, "wb") as f:
+                f.write(data)
+        except BaseException:  # noqa: BLE001
+            code = 1
+        finally:
+            os._exit(code)
+    os.close(w)
+    chunks = []
+    with os.fdopen(r, "rb") as f:
+        while True:
+            b = f.read(1 << 16)
+            if not b:
+                break
+            chunks.append(b)
+    os.waitpid(pid, 0)
+    if not chunks:
+        raise RuntimeError("isolated run died without a result")
+    kind, payload = pickle.loads(b"".join(chunks))
+    if kind == "err":
+        raise RuntimeError("isolated run raised:\n" + payload)
+    return payload
+
+
 def _pool_entry(arg):
+    return _isolated(_pool_entry_inner, arg)
+
+
+def _pool_entry_inner(arg):
     seed, i, tier, mode = arg
     check = _CHECK
     rng = derive_rng(seed, check.pid, i)
@@ -458,6 +523,7 @@ def main_check(check: Check, tier: str, seed: int, replay: str | None, as_json: 
         for j in audit_idx:
             yield j, (seed, j, tier, "plain")
 
+    preload()
     pool = Pool(_pool_entry, JOBS, cfg["item_timeout"])
     try:
         pool.run(items(), wall_budget=cfg["wall"], on_result=on_result)
